@@ -113,7 +113,19 @@ class Summary:
                 continue
             if e2.kind == "store" and e2.a != ev.a and not _same_shape(e2.a, ev.a):
                 continue
-            gs = {(g.a, g.b) for g in ctx.guards if g.kind == "guard"}
+            # the same statement reached with the loop variable bound under another number (the loop header is
+            # duplicated on the two arms of an earlier test): compare the guards with that variable renamed
+            ren = {}
+            if e2.a != ev.a and isinstance(e2.a, tuple) and isinstance(ev.a, tuple):
+                xs, ys = [x for x in subterms(e2.a) if op(x) == "bv"], [y for y in subterms(ev.a) if op(y) == "bv"]
+                if len(xs) == len(ys):
+                    ren = {x: y for x, y in zip(xs, ys) if x != y}
+            if ren:
+                from .terms import substitute
+
+                gs = {(substitute(g.a, ren) if isinstance(g.a, tuple) else g.a, g.b) for g in ctx.guards if g.kind == "guard"}
+            else:
+                gs = {(g.a, g.b) for g in ctx.guards if g.kind == "guard"}
             common = gs if common is None else (common & gs)
         return tuple(sorted(common or (), key=repr))
 
